@@ -345,6 +345,8 @@ func (q *Req) Text() string {
 		return "view " + q.Table + " = " + q.Def
 	case "drop":
 		return "drop " + q.Table
+	case "raw":
+		return q.Def
 	}
 	panic("bad req kind " + q.Kind)
 }
@@ -371,6 +373,9 @@ func (m *Model) Apply(q *Req) error {
 func errf(format string, args ...any) error { return fmt.Errorf(format, args...) }
 
 func (m *Model) apply(q *Req) error {
+	if q.Kind == "raw" {
+		return errf("malformed or invalid request")
+	}
 	if isSystemTable(q.Table) || (q.Kind == "rename" && isSystemTable(q.NewName)) {
 		return errf("system table")
 	}
